@@ -33,9 +33,17 @@ def gen_case(rng: Rng, i: int, tier: str):
     r = rng.sub("k")
     if r.chance(0.15):
         fx, pw = r.pick(hist.FIXTURE_BASES)
-        return {"fixture": fx, "open": r.pick(["path", "stream"]), "supply_password": True}
+        return {"fixture": fx, "open": r.pick(["path", "stream", "anon"]), "supply_password": True}
+    if rng.sub("src").chance(0.3):
+        # an archive of the independent reference writer: members without attributes or times, empty files next to
+        # directories, several folders, folders without streams - what 7-Zip may write and py7zr's own writer never does
+        from props import c06
+
+        c = c06.gen_case(rng.sub("ref"), 10 ** 6, tier)
+        if "members" in c:
+            return {"ref": {"members": c["members"], "layout": c["layout"]}, "open": r.pick(["path", "stream", "anon"]), "supply_password": True}
     arc = rsess.gen_archive(rng.sub("arc"), tier)
-    return {"archive": arc, "open": r.pick(["path", "stream"]), "supply_password": r.chance(0.6)}
+    return {"archive": arc, "open": r.pick(["path", "stream", "anon"]), "supply_password": r.chance(0.6)}
 
 
 def _built_from_fixture(fx):
@@ -57,6 +65,13 @@ def run_case(case):
         built = _built_from_fixture(case["fixture"])
         src = "fixture"
         if built.ref.undecoded or any(m.name is None for m in built.ref.members):
+            res["extra"]["archive_skipped"] = 1
+            res["digest"] = digest_of(["skipped"])
+            return res
+    elif "ref" in case:
+        built = rsess.build_from_ref(case["ref"])
+        src = "ref7z"
+        if built.error is not None or built.image is None:
             res["extra"]["archive_skipped"] = 1
             res["digest"] = digest_of(["skipped"])
             return res
@@ -119,12 +134,13 @@ def run_case(case):
                 sess.finish()
             except Exception:
                 pass
-        fams = sorted({gen.chain_family(s.get("chain")) for s in case["archive"]["sessions"]}) if "archive" in case else [case["fixture"]]
+        fams = sorted({gen.chain_family(s.get("chain")) for s in case["archive"]["sessions"]}) if "archive" in case else (
+            [case["fixture"]] if "fixture" in case else sorted({"+".join(f["id"] for f in fo["chain"]) for fo in case["ref"]["layout"]["folders"]}))
         res["sigs"].append(([src, fams, min(len(built.model), 4), built.nfolders > 1, built.password is not None, case["open"]], len(built.model) >= 2))
         res["probes"]["encrypted_archive"] = 1 if built.password is not None else 0
         res["probes"]["archive_without_members"] = 1 if not built.model else 0
         res["digest"] = digest_of([built.image, [v["detail"] for v in res["violations"]]])
-        res["sample"] = {"source": case.get("fixture", "py7zr history"), "chains": fams, "members": [(m.name, m.kind) for m in built.model][:8], "folders": built.nfolders, "open": case["open"]}
+        res["sample"] = {"source": case.get("fixture", "reference writer" if "ref" in case else "py7zr history"), "chains": fams, "members": [(m.name, m.kind) for m in built.model][:8], "folders": built.nfolders, "open": case["open"]}
         return res
     finally:
         shutil.rmtree(scratch, ignore_errors=True)
